@@ -91,7 +91,12 @@ def run(facts, chk, tier, only=None):
                 if bb not in after or t.callee.krate != 'ska':
                     continue
                 n = t.callee.name or ''
-                uses_arr = any('ska_array' in show(eb.operand(a)) for a in t.args)
+                # the call receives the array itself (a re-borrow of the parameter), not a value derived from it by an allowed method
+                def is_arr(e):
+                    while e[0] in ('ref', 'deref'):
+                        e = e[1]
+                    return e[0] == 'arg' and e[2] == 'ska_array'
+                uses_arr = any(is_arr(eb.operand(a)) for a in t.args)
                 if uses_arr and n.split('::')[-1] not in allowed:
                     bad.append((n, t.span))
                 # formatting the array ({ska_array} / {:?}) reads ksize / split_kmers
